@@ -727,7 +727,78 @@ def replay_c07(d, case):
     return False, 'every pixel equals the specification'
 
 
-HANDLERS = {'c07': replay_c07, 'c10': replay_c10, 'c08': replay_c08, 'c02': replay_c02, 'c01': replay_c01, 'c15_list': replay_c15_list, 'tool': replay_tool, 'c20': replay_c20}
+def replay_c11(d, case):
+    import contextlib, io
+    from amr_kitchen.chef.chef import Chef
+    import cantera as ct
+    os.chdir(d)
+    r = _cref(case['ref'])
+    label, kw, kept = case['label'], dict(case['kw']), case['kept']
+    out = os.path.join(d, 'out')
+    with contextlib.redirect_stdout(io.StringIO()), contextlib.redirect_stderr(io.StringIO()):
+        try:
+            Chef(plotfile=os.path.join(d, 'plt'), recipe=case['recipe'], outfile=out, serial=case['serial'], kept_fields=kept, **kw).cook()
+        except Exception as e:
+            return True, 'raised %s: %s' % (type(e).__name__, e)
+    try:
+        P = read_real_plotfile(out)
+    except RealReadError as e:
+        return True, 'output is not a well-formed plotfile: %s' % e
+    F = case['fields']
+    keptn = [k for k in (kept.split() if kept else []) if k in F]
+    want_fields = keptn + case['newnames']
+    if P['fields'] != want_fields:
+        return True, 'fields %s, expected %s' % (P['fields'], want_fields)
+    gas = ct.Solution('h2o2_min.yaml') if 'mech' in kw else None
+    iT, iY = F.index('temp'), F.index('Y(H2)')
+    for l in range(r.nlev):
+        got_boxes = [(tuple(a), tuple(b)) for a, b in P['boxes'][l]]
+        for b, box in enumerate(r.boxes[l]):
+            if box not in got_boxes:
+                return True, 'level %d box %s missing' % (l, box)
+            g = P['data'][l][got_boxes.index(box)]
+            arr = r.data[l][b]
+            for k, name in enumerate(keptn):
+                if not bit_equal(g[..., k], arr[..., F.index(name)]):
+                    return True, 'level %d box %s: kept field %s is not bit-identical to the input' % (l, box, name)
+            a_, rho = arr[..., F.index('a')], arr[..., F.index('density')]
+            if gas is not None:
+                sa = ct.SolutionArray(gas, arr.shape[:-1])
+                sa.TPY = arr[..., iT].copy(), kw['pressure'] * ct.one_atm * np.ones(arr.shape[:-1]), arr[..., iY:iY + 2].copy()
+            if label.startswith('user-single'):
+                new = [a_ + 2 * rho]
+            elif label.startswith('user-multi'):
+                new = [2 * a_ + rho, a_ * rho]
+            elif label.startswith('user-sol'):
+                new = [sa.heat_release_rate * rho]
+            elif label.startswith('HRR'):
+                new = [sa.heat_release_rate]
+            elif label.startswith('ENT'):
+                new = [sa.enthalpy_mass]
+            elif label.startswith('SRi'):
+                new = [sa.net_production_rates[..., gas.species_index(s)] for s in kw['species']]
+            elif label.startswith('SDi'):
+                new = [sa.mix_diff_coeffs_mass[..., gas.species_index(s)] for s in kw['species']]
+            else:
+                new = [sa.net_rates_of_progress[..., i] for i in kw['reactions']]
+            for k, w in enumerate(new):
+                gg = g[..., len(keptn) + k]
+                if gg.shape != w.shape or not np.allclose(gg, w, rtol=1e-9, atol=1e-300):
+                    return True, 'level %d box %s: field %s differs from the recipe evaluated on that box' % (l, box, want_fields[len(keptn) + k])
+            k2 = got_boxes.index(box)
+            for c in range(g.shape[-1]):
+                mn, mx = float(np.min(g[..., c])), float(np.max(g[..., c]))
+                if abs(P['mins'][l][k2][c] - mn) > 1e-12 * max(1e-300, abs(mn)) or abs(P['maxs'][l][k2][c] - mx) > 1e-12 * max(1e-300, abs(mx)):
+                    return True, 'level %d box %s: min/max row of field %d is not the extrema of the written data' % (l, box, c)
+    from amr_kitchen.taste.taste import Taster
+    with contextlib.redirect_stdout(io.StringIO()), contextlib.redirect_stderr(io.StringIO()):
+        ok = bool(Taster(out, nofail=True))
+    if not ok:
+        return True, 'taste rejects the output'
+    return False, 'output equals recipe(box) under the right names'
+
+
+HANDLERS = {'c11': replay_c11, 'c07': replay_c07, 'c10': replay_c10, 'c08': replay_c08, 'c02': replay_c02, 'c01': replay_c01, 'c15_list': replay_c15_list, 'tool': replay_tool, 'c20': replay_c20}
 
 
 def register(name):
